@@ -97,6 +97,17 @@ Setup ==
          << [op |-> "NewDoc", out |-> "d1"], [op |-> "AddNs", h |-> "d1", p |-> "ex", u |-> A],
             [op |-> "NewDoc", out |-> "d2"], [op |-> "AddNs", h |-> "d2", p |-> "ex", u |-> A],
             [op |-> "NewDoc", out |-> "d3"], [op |-> "AddNs", h |-> "d3", p |-> "e3", u |-> A] >>
+    [] Scenario = "c04d" ->     \* equal records whose attributes were stated in different orders (the model state
+                                \* cannot tell the orders apart, so the history is fixed in the setup)
+         LET a1 == <<NameQN("ex", A, <<"attr">>), [t |-> "int", v |-> "1"]>>
+             a2 == <<NameQN("ex", A, <<"attr2">>), [t |-> "str", v |-> "s1"]>>
+             a3 == <<NamePL("prov", <<"type">>), [t |-> "name", n |-> NameQN("ex", A, Y)]>>
+         IN << [op |-> "NewDoc", out |-> "d1"], [op |-> "AddNs", h |-> "d1", p |-> "ex", u |-> A],
+               [op |-> "NewDoc", out |-> "d2"], [op |-> "AddNs", h |-> "d2", p |-> "ex", u |-> A],
+               [op |-> "NewDoc", out |-> "d3"], [op |-> "AddNs", h |-> "d3", p |-> "e3", u |-> A],
+               NR("d1", "entity", <<NameQN("ex", A, X)>>, <<>>, <<a1, a2, a3>>),
+               NR("d2", "entity", <<NameQN("ex", A, X)>>, <<>>, <<a3, a2, a1>>),
+               NR("d3", "entity", <<NameQN("e3", A, X)>>, <<>>, <<a2, a1, a3>>) >>
     [] Scenario = "c04b" ->     \* three equal documents; compare, edit through any mutator, compare again
          << [op |-> "NewDoc", out |-> "d1"], [op |-> "AddNs", h |-> "d1", p |-> "ex", u |-> A],
             [op |-> "NewDoc", out |-> "d2"], [op |-> "AddNs", h |-> "d2", p |-> "ex", u |-> A],
@@ -197,11 +208,18 @@ RecMenu ==
             formals |-> << <<"entity", Ref(NameQN("ex", A, X))>> >>, extras |-> <<>>],
            [k |-> "generation", id |-> <<>>, formals |-> << <<"entity", Ref(NameQN("ex", A, Y))>> >>, extras |-> <<>>] }
     [] Scenario = "c04b" -> {}
+    [] Scenario = "c04d" -> {}
     [] Scenario = "c04c" ->
          { [k |-> "entity", id |-> <<NameQN("ex", A, X)>>, formals |-> <<>>,
             extras |-> << <<NameQN("ex", A, <<"attr">>), [t |-> "lit", v |-> "s1", dt |-> QN(d[1], d[2], <<"dtype">>)]>> >>]
              : d \in { <<"ex", A>>, <<"e3", A>>, <<"q", A>>, <<"q", C>> } }
          \cup { [k |-> "entity", id |-> <<NameQN("ex", A, X)>>, formals |-> <<>>, extras |-> <<>>] }
+         \* the same two attributes stated in either order
+         \cup { [k |-> "entity", id |-> <<NameQN("ex", A, X)>>, formals |-> <<>>, extras |-> e]
+                  : e \in { << <<NameQN("ex", A, <<"attr">>), [t |-> "int", v |-> "1"]>>,
+                               <<NameQN("ex", A, <<"attr2">>), [t |-> "str", v |-> "s1"]>> >>,
+                            << <<NameQN("ex", A, <<"attr2">>), [t |-> "str", v |-> "s1"]>>,
+                               <<NameQN("ex", A, <<"attr">>), [t |-> "int", v |-> "1"]>> >> } }
     [] Scenario \in {"c12", "c12b"} ->
          { [k |-> "entity", id |-> <<NamePL("ex", <<"z">>)>>, formals |-> <<>>,     \* a literal with an application datatype
             extras |-> << <<NameQN("ex", A, <<"attr">>), [t |-> "lit", v |-> "s1", dt |-> QN("ex", A, <<"dtype">>)]>> >>],
@@ -244,8 +262,8 @@ ActsMutate ==   \* C12 follow-up mutators on any live object
   \cup { [op |-> "AddNs", h |-> h, p |-> "mut", u |-> C] : h \in Live }
   \cup { [op |-> "SetDefault", h |-> h, u |-> AB] : h \in {x \in Live : ms.mgr[ms.con[x].mgr].dflt \in {NONE, AB}} }
 
-ActsBundle04 == { [op |-> "Bundle", h |-> h, id |-> NameQN("ex", A, <<"b1">>), out |-> h \o "b"]
-                    : h \in Docs \cap {"d1", "d2"} }
+ActsBundle04 == { [op |-> "Bundle", h |-> h, id |-> NameQN("ex", A, <<b>>), out |-> h \o b]
+                    : h \in Docs \cap {"d1", "d2"}, b \in {"b1", "b2"} }     \* (same number of bundles, other names)
 ActsCompare == { [op |-> "CompareAll", hs |-> <<"d1", "d2", "d3">>] }
 ActsGet04 == { [op |-> "GetRecord", h |-> h, id |-> i] : h \in {"d1", "d2", "d3"},
                i \in { NameQN("ex", A, <<"nope">>), NameUri(A \o X) } }
@@ -260,6 +278,7 @@ ActsEdit04 ==
 Compared == Len(hist) > NSetup /\ hist[Len(hist)].op = "CompareAll"
 Menu ==
   CASE Scenario = "c04" -> IF Compared THEN {} ELSE ActsNewRec \cup ActsBundle04 \cup ActsCompare
+    [] Scenario = "c04d" -> IF Compared THEN {} ELSE ActsCompare
     [] Scenario = "c04b" -> ActsEdit04 \cup (IF Compared THEN {} ELSE ActsCompare)
     [] Scenario = "c04c" -> IF Compared THEN {} ELSE ActsNewRec \cup ActsGet04 \cup ActsCompare
     [] Scenario \in {"c18", "c18b"} -> {[op |-> "SetDefault", h |-> h, u |-> C] : h \in {x \in Live : ms.mgr[ms.con[x].mgr].dflt \in {NONE, C}}}
